@@ -459,6 +459,13 @@ def check_invariance(ctx, M, spec, T, io, is_):
         s2 = [a * v + b for v in is_.vals]
         check_det(ctx, M, spec, T, info_of(T, o2), info_of(T, s2), False, only=("nse",),
                   tag="affine-invariance", exp_override=exp, casex={"kind": "inv", "map": [a, b], "obs0": encl(io.vals), "sim0": encl(is_.vals)})
+    # series far from zero compared with their spread (levels above a datum, Kelvin-like offsets): |mean|/sd ~ 2e5,
+    # still non-degenerate (1e-6 relative); bias and KGE against the exact value of the shifted pair itself
+    for b in (262144.0, -262144.0):
+        o2 = [v + b for v in io.vals]
+        s2 = [v + b for v in is_.vals]
+        check_det(ctx, M, spec, T, info_of(T, o2), info_of(T, s2), False, only=("bias:standard", "bias:normalised", "kge"),
+                  tag="formula-large-offset", casex={"kind": "inv", "map": [1.0, b], "obs0": encl(io.vals), "sim0": encl(is_.vals)})
     for c in SCALES:
         o2 = [c * v for v in io.vals]
         s2 = [c * v for v in is_.vals]
